@@ -733,6 +733,12 @@ def open_site_table(repo):
     return t
 
 
+def variable_hids(repo):
+    """{(function, variable): hid}"""
+    w, _ = translate(repo)
+    return {(fn, var): h for h, fn, var, _ in w.hids}
+
+
 def local_open_sites(repo):
     """{function: {(relfile, line)}} — open sites whose handle the function does not return"""
     w, _ = translate(repo)
